@@ -13,7 +13,7 @@ Record astate := mka { alists : list (cid * list root); apend : list (N * (cid *
 Definition ainit : astate := {| alists := []; apend := [] |}.
 Definition aget (a : astate) (id : cid) : list root :=
   match alookup id (alists a) with Some l => l | None => [] end.
-Definition adel {V} (k : N) (l : list (N * V)) : list (N * V) := filter (fun p => negb (fst p =? k)) l.
+Notation adel := cdel.
 
 Definition accepted (ob : obs) : bool :=
   match ob with ORes (Ok _) => true | OAct (Ok _) _ => true | _ => false end.
@@ -50,18 +50,10 @@ Fixpoint aruns (s : state) (a : astate) (ops : list op) : astate :=
   end.
 
 Lemma alookup_adel_same V k (l : list (N * V)) : alookup k (adel k l) = None.
-Proof.
-  induction l as [|[k' v] t IH]; cbn; [reflexivity|].
-  destruct (k' =? k) eqn:E; cbn [negb]; [exact IH|]. cbn. replace (k =? k') with false by lia. exact IH.
-Qed.
+Proof. rewrite alookup_cdel. now rewrite N.eqb_refl. Qed.
 
 Lemma alookup_adel_other V k k' (l : list (N * V)) : k <> k' -> alookup k (adel k' l) = alookup k l.
-Proof.
-  intros Hne. induction l as [|[k2 v] t IH]; cbn; [reflexivity|].
-  destruct (k2 =? k') eqn:E; cbn [negb].
-  - replace (k =? k2) with false by lia. exact IH.
-  - cbn. destruct (k =? k2); [reflexivity|exact IH].
-Qed.
+Proof. intros H. rewrite alookup_cdel. now replace (k =? k') with false by lia. Qed.
 
 Lemma not_accepted_unchanged s o s' ob : step s o = (s', ob) -> accepted ob = false -> s' = s.
 Proof.
@@ -189,8 +181,9 @@ Proof.
     destruct (renew_lookup (t1 (dbs s)) old new (with_to (with_rev c crev cfsize cmroot) (Some new))
                 (nc1 nrev nfsize nmroot nws) Hne Ln1) as [LK _].
     match goal with |- R ?st _ => set (s' := st) end.
-    assert (G : forall y, cache_get s' y = if y =? new then cache_get s old else cache_get s y)
-      by (apply cache_get_upd; reflexivity).
+    assert (G : forall y, cache_get s' y =
+              if y =? old then [] else if y =? new then cache_get s old else cache_get s y)
+      by (apply cache_get_renew1; reflexivity).
     split; [|exact RU].
     intros id0 c0 [HL HR]. cbn [s' dbs set_cache set_dbs set_t1 t1 t2] in HL. rewrite aget_aset, G.
     destruct HL as [HL|HL].
@@ -199,6 +192,9 @@ Proof.
       destruct (id0 =? new) eqn:E2; [|apply (RL id0 c0); split; auto].
       apply (RL old c). split; auto.
     + assert (id0 <> new) by congruence. replace (id0 =? new) with false by lia.
+      assert (id0 <> old).
+      { intros ->. rewrite (inv_disj meta s I old) in HL by congruence. discriminate. }
+      replace (id0 =? old) with false by lia.
       apply (RL id0 c0). split; auto.
   - (* Revise2 *)
     assert (ob = ORes (Ok tt)).
